@@ -12,7 +12,7 @@
 //   seed <n>                         or: seeded random scheduling
 // Thread ops: find k | contains k | insert k v | ioa k v | update k v | upsert k fn two v |
 //   uprase k fn two v | erase k | updatefn k fn | erasefn k fn | rehash n | reserve n | clear |
-//   lock | unlock | l.insert k v | l.erase k | l.find k | l.rehash n | l.reserve n | l.clear | sin
+//   lock | unlock | l.insert k v | l.erase k | l.find k | l.rehash n | l.reserve n | l.clear | l.sin | l.sinbad
 // Output: EV <tid> <label> lines (the global event trace), H <tid> inv/ret lines (the history),
 //   DEADLOCK if no thread can run, the final dump, LOCKS free=<0|1>.
 #include <atomic>
@@ -425,6 +425,29 @@ static std::string run_op(int tid, const std::vector<std::string> &tk) {
       } catch (...) { built = false; }
       if (!built) r = " exc:UNMODELLED";   // the image could not be built: nothing is extracted
       else { ss >> *lt; r = " -"; }
+    }
+    else if (o == "l.sinbad") {
+      // as l.sin, but the image's stored minimum load factor is out of its domain (2.0): the extraction replaces the
+      // bucket array and then fails in the setter (std::invalid_argument)
+      std::stringstream ss;
+      bool built = true;
+      try {
+        Table src(0);
+        src.maximum_hashpower(10);
+        src.rehash(U(tk[1]));
+        for (size_t i = 2; i + 1 < tk.size(); i += 2) src.insert(K(tk[i]), I(tk[i + 1]));
+        auto slt = src.lock_table();
+        ss << slt;
+      } catch (...) { built = false; }
+      if (!built) r = " exc:UNMODELLED";
+      else {
+        std::string img = ss.str();
+        double bad = 2.0;
+        size_t off = img.size() - sizeof(size_t) - sizeof(double);   // layout: buckets, size, mlf (double), mhp (size_t)
+        memcpy(&img[off], &bad, sizeof(double));
+        std::stringstream s2(img);
+        s2 >> *lt; r = " -";
+      }
     }
 #endif
     else r = " exc:UNMODELLED";
